@@ -15,7 +15,7 @@
 From Coq Require Import List NArith ZArith Bool.
 From Mila Require Import Lib.Bytes Lib.Machine Model.BinArchive Model.BinStreams Model.BinFormat Model.AssetBin
   Proofs.RecsCells Proofs.RecsBytes Proofs.AssetBinSchema Proofs.AssetBinFlags Proofs.AssetBinWrite Proofs.AssetBinRead
-  Proofs.AssetBinRoundTrip Proofs.AssetBinBytes.
+  Proofs.AssetBinRoundTrip Proofs.AssetBinBytes Proofs.AssetBinStable.
 Import ListNotations.
 Local Open Scope N_scope.
 
@@ -67,6 +67,20 @@ Proof. exact round_trip_bytes_final. Qed.
 (* the premise is used on a well-formed archive: what the writer builds satisfies ba_wf *)
 Theorem C18_built_archive_wf : forall b, wf_bin_bytes b -> ba_wf (arch_of (src_file_cells b) []).
 Proof. exact built_archive_wf. Qed.
+
+(* whatever the reader returns - from ANY archive with byte-valued data, also a foreign or malformed one; from any byte string -
+   is in the domain (in particular in normal form) and a fixed point of write -> read *)
+Theorem C18_reader_output_round_trips : forall a b, wfb (a_data a) -> from_archive a = Ok b ->
+  wf_bin b /\ exists a', build b = Ok a' /\ from_archive a' = Ok b.
+Proof. exact reader_output_round_trips. Qed.
+Theorem C18_parse_output_round_trips : forall f b, wfb f -> parse f = Ok b ->
+  wf_bin b /\ exists a', build b = Ok a' /\ from_archive a' = Ok b.
+Proof. exact parse_output_round_trips. Qed.
+
+(* two values of the domain with the same image are equal *)
+Theorem C18_serialize_injective : forall m b1 b2 f,
+  wf_bin_bytes b1 -> wf_bin_bytes b2 -> serialize m b1 = Ok f -> serialize m b2 = Ok f -> b1 = b2.
+Proof. exact serialize_injective. Qed.
 
 Theorem C18_reserialize_identical : forall b a b',
   wf_bin b -> build b = Ok a -> from_archive a = Ok b' -> b' = b /\ build b' = Ok a.
